@@ -2,7 +2,7 @@
 import pickle
 
 from .. import families, findings, gen, harness, hist, walker
-from ..families import INT_RANGES, Indexable, f32
+from ..families import INT_RANGES, Indexable, f32, is_duck_number
 from ..harness import brief, call, eq
 from ..runner import rng_for
 
@@ -33,9 +33,11 @@ def must_see(tier):
          'hostile-value-delivered': 300,
          'both-raised-same': 500, 'shape-and-pickle-compared': 500,
          'absolute:lookup-absent': 200, 'absolute:write-typeerror': 200,
-         'view-walks': 100, 'stale-separator-trees': 10}
+         'view-walks': 100, 'stale-separator-trees': 10,
+         'stored:sweep': 500, 'stored:commit': 100}
     for lab in ('int', 'bool', 'float', 'str', 'bytes', 'none', 'tuple',
-                'plain', 'index', 'ordered'):
+                'plain', 'index', 'ordered', 'bytearray', 'memoryview',
+                'fraction', 'decimal'):
         m['hostile-class:' + lab] = 20
     return m
 
@@ -66,14 +68,13 @@ def arg_ok(fam, pos, v):
 def diagnose(fam, kind, op, args, hostile, oc, op_, stage, extra=None):
     """Known C-vs-Python divergences, keyed on mechanism."""
     is_tree = kind in families.TREE_KINDS
-    # F15a: a non-int object with __index__
-    if any(isinstance(a, Indexable) for a in args) or any(
-            isinstance(x, Indexable) for a in args
-            if isinstance(a, (list, tuple, dict))
-            for x in (a.items() if isinstance(a, dict) else a)
-            for x in (x if isinstance(x, tuple) else (x,))):
-        if (hostile and hostile[0] == 'key' and fam.kc in INT_RANGES) or \
-                (hostile and hostile[0] == 'value' and fam.vc in 'IULQF'):
+    # F15a: a non-int object with __index__ (or, as a float value, a
+    # non-float object with __float__: Fraction, Decimal)
+    if hostile and is_duck_number(hostile[2]):
+        idx = isinstance(hostile[2], Indexable)
+        if (idx and hostile[0] == 'key' and fam.kc in INT_RANGES) or \
+                (idx and hostile[0] == 'value' and fam.vc in 'IULQF') or \
+                (not idx and hostile[0] == 'value' and fam.vc == 'F'):
             return 'F15'
     # F35: C skips a store of an equal value (0.0 over -0.0 and vice versa)
     if fam.vc == 'F' and stage == 'pickle' and extra and \
@@ -83,8 +84,9 @@ def diagnose(fam, kind, op, args, hostile, oc, op_, stage, extra=None):
     if fam.vc == 'F' and stage in ('result', 'contents', 'pickle') and \
             extra and extra.get('f32_equal'):
         return 'F08'
-    if fam.vc == 'F' and stage == 'pickle':
-        return 'F08' if extra and extra.get('f32_contents') else None
+    if fam.vc == 'F' and stage == 'pickle' and extra and \
+            extra.get('f32_contents'):
+        return 'F08'
     # F14: comparison TypeError swallowed by C get/[]/discard, raised by Py;
     # Py in/has_key say False for a default-comparison object before
     # comparing, C raises
@@ -197,6 +199,18 @@ def run_history(fam, kind, rng, rec, h, pal):
         harness.set_node_sizes(cc, *sizes)
         harness.set_node_sizes(pc, *sizes)
     c, p = cc(), pc()
+    # every third history: both containers live in a database of their own
+    # and are swept (and now and then committed) before calls
+    conns = None
+    if h % 3 == 2:
+        from .. import minidb
+        conns = {}
+        for impl_, o_ in (('c', c), ('py', p)):
+            cn_ = minidb.Connection(minidb.Storage(), impl_)
+            cn_.log_events = False
+            cn_.add(o_)
+            cn_.commit()
+            conns[impl_] = cn_
     g = gen.HistoryGen(fam, kind, rng, adversarial=0.3)
     if sizes:
         g.max_leaf = sizes[0]
@@ -248,6 +262,32 @@ def run_history(fam, kind, rng, rec, h, pal):
                     rec.ev('stale-separator-trees')
             except TypeError:
                 pass
+        if conns is not None and not stale_mode:
+            inl = False
+            if is_tree:
+                try:
+                    inl = bool(w is not None and w.inline_nonroot) or bool(
+                        walker.walk(p, is_mapping).inline_nonroot)
+                except Exception:
+                    inl = True
+            r_ = rng.random()
+            if inl:
+                pass            # (F22 shape: never store it)
+            elif r_ < 0.15:
+                try:
+                    for cn_ in conns.values():
+                        cn_.commit()
+                    rec.ev('stored:commit')
+                except Exception:
+                    conns = None
+                if conns is not None and is_tree and (
+                        minidb.embedded_but_leaf_has_oid(conns['c'], c) or
+                        minidb.embedded_but_leaf_has_oid(conns['py'], p)):
+                    conns = None        # F34 condition: stop sweeping
+            elif r_ < 0.55:
+                for cn_ in conns.values():
+                    cn_.cache.minimize()
+                rec.ev('stored:sweep')
         op, args = g.next_op(w, present)
         hostile = None
         if rng.random() < 0.27 and args:
@@ -343,7 +383,7 @@ def run_history(fam, kind, rng, rec, h, pal):
                     return
         # ---- absolute clause for data outside the domain ----------------
         if hostile and not arg_ok(fam, hostile[0], hostile[2]) and \
-                not isinstance(hostile[2], Indexable):
+                not is_duck_number(hostile[2]):
             if op in LOOKUPS and hostile[0] == 'key':
                 rec.ev('absolute:lookup-absent')
                 for impl, o in (('c', oc), ('py', opy)):
@@ -421,6 +461,15 @@ def run_history(fam, kind, rng, rec, h, pal):
                              memo_only=dumps_nomemo(c, 3) == dumps_nomemo(p, 3),
                              zero_sign_only=differ_only_in_zero_sign(
                                  dumps_nomemo(c, 3), dumps_nomemo(p, 3)))
+                if conns is not None and extra['memo_only']:
+                    # nodes reloaded from separate records no longer SHARE
+                    # equal key objects (a separator and the leaf key it
+                    # was copied from); which ones do depends on what each
+                    # cache happened to keep: object identity inside one
+                    # whole-tree pickle is not serialized state (the stored
+                    # records are compared by C06)
+                    rec.ev('stored:memo-only-difference-ignored')
+                    continue
                 tag = diagnose(fam, kind, op, ca, hostile, oc, opy, 'pickle',
                                extra)
                 a_, b_ = dumps_nomemo(c, 3), dumps_nomemo(p, 3)
